@@ -247,8 +247,13 @@ class Codec:
                 assert silent, f"incomplete tag {m}"
                 return (None, skip_length, None)
             tag, value = toks
-            if not (tag.isascii() and tag.isdigit()):
-                assert silent, f"incorrect tag {m}"
+            try:
+                is_tag_valid = tag.isascii() and tag.isdigit() and int(tag) >= 0
+            except ValueError:
+                # more digits than int() is able to convert
+                is_tag_valid = False
+            if not is_tag_valid:
+                assert silent, f"incorrect tag {m[:40]}"
                 return (None, skip_length, None)
 
             if tag == FTag.CheckSum:
